@@ -224,6 +224,7 @@ pub async fn build_memtable_flow(
     }
 
     // Compute projection for RETURN fields if specified
+    let input_column_count = final_schema.column_count();
     let projection = if let Command::Query {
         return_fields,
         event_type,
@@ -258,7 +259,7 @@ pub async fn build_memtable_flow(
 
     // Optimize: Skip ProjectOp if it's an identity projection (all columns in same order)
     // This avoids unnecessary cloning of all values
-    if projection.is_identity() {
+    if projection.is_identity(input_column_count) {
         // Identity projection - just pass through batches without cloning
         Ok(ShardFlowHandle::new(current_rx, final_schema, tasks))
     } else {
@@ -340,7 +341,7 @@ pub async fn build_segment_flow(
     };
 
     // Optimize: Skip ProjectOp if it's an identity projection (all columns in same order)
-    if projection.is_identity() {
+    if projection.is_identity(schema.column_count()) {
         // Identity projection - just pass through batches without cloning
         Ok(Some(ShardFlowHandle::new(current_rx, schema, tasks)))
     } else {
@@ -454,6 +455,7 @@ pub async fn build_segment_stream(
     }
 
     // Compute projection for RETURN fields if specified
+    let input_column_count = final_schema.column_count();
     let projection = if let Command::Query {
         return_fields,
         event_type,
@@ -487,7 +489,7 @@ pub async fn build_segment_stream(
     };
 
     // Optimize: Skip ProjectOp if it's an identity projection (all columns in same order)
-    if projection.is_identity() {
+    if projection.is_identity(input_column_count) {
         // Identity projection - just pass through batches without cloning
         Ok(Some(ShardFlowHandle::new(current_rx, final_schema, tasks)))
     } else {
